@@ -6,3 +6,13 @@ import "io"
 
 // Verification hook for property C13: exposes the shared-port header reader.
 func VerifC13ReadPassSockHeader(r io.Reader) error { return readPassSockHeader(r) }
+
+// VerifC13WritePassSockHeader exposes the shared-port header writer.
+func VerifC13WritePassSockHeader(w io.Writer) error { return writePassSockHeader(w) }
+
+// Constants of the pass-socket header protocol.
+const (
+	VerifC13HeaderSize       = cedarHeaderSize
+	VerifC13IntPayloadLen    = cedarIntPayloadLen
+	VerifC13MaxHeaderPayload = maxHeaderPayload
+)
